@@ -39,7 +39,7 @@ def check(ctx):
             fn = ci.methods["_write"]
             if any(call_name(c).endswith(("sock.send", "sock.sctp_send")) for c in fn_calls(fn)):
                 impls.append((ci, fn))
-    ctx.floor("write_implementations", len(impls), 2)
+    ctx.floor("write_implementations", len(impls), 1)      # (a second transport may inherit the one implementation)
     shapes = []
     for ci, fn in impls:
         q = f"{ci.qual}._write"
